@@ -564,10 +564,19 @@ def parse_unit(path):
             cur.loops.setdefault(k, []).append(Clause(sub, [t.strip() for t in tags], body, i + 1))
         elif d == "at":
             # at body_start | at loop K start | at before /re/ [#n] | at after /re/ [#n] | at end
-            m2 = re.match(r"(body_start|fn_end|exits|loop\s+\d+\s+start|loop\s+\d+\s+end|loop\s+\d+\s+after|arm\s+/.*?/(?:\s*#\d+)?\s+(?:start|end)|block\s+/.*?/(?:\s*#\d+)?\s+(?:start|end|else_start|else_end)|before\s+/.*?/(?:\s*#\d+)?|after\s+/.*?/(?:\s*#\d+)?|stmt_after\s+/.*?/(?:\s*#\d+)?)\s*(?:\[([^\]]*)\])?\s*:?\s*(.*)$", full, re.S)
+            # alternatives: `at A ||| B [tags]:` - the first anchor that resolves is used (the same hint for two
+            # equivalent ways of writing the code, e.g. `match .. { None => .. }` and `if let .. else { .. }`)
+            WH = r"(body_start|fn_end|exits|loop\s+\d+\s+start|loop\s+\d+\s+end|loop\s+\d+\s+after|arm\s+/.*?/(?:\s*#\d+)?\s+(?:start|end)|block\s+/.*?/(?:\s*#\d+)?\s+(?:start|end|else_start|else_end)|before\s+/.*?/(?:\s*#\d+)?|after\s+/.*?/(?:\s*#\d+)?|stmt_after\s+/.*?/(?:\s*#\d+)?)"
+            alts = []
+            rest_ = full
+            while True:
+                ma = re.match(WH + r"\s+\|\|\|\s+", rest_, re.S)
+                if not ma: break
+                alts.append(ma.group(1)); rest_ = rest_[ma.end():]
+            m2 = re.match(WH + r"\s*(?:\[([^\]]*)\])?\s*:?\s*(.*)$", rest_, re.S)
             if not m2:
                 raise ValueError("%s:%d bad at-directive" % (path, i + 1))
-            cur.ats.append((m2.group(1), m2.group(3), i + 1, [x.strip() for x in (m2.group(2) or "").split(",") if x.strip()]))
+            cur.ats.append((" ||| ".join(alts + [m2.group(1)]), m2.group(3), i + 1, [x.strip() for x in (m2.group(2) or "").split(",") if x.strip()]))
         elif d == "closure":
             m2 = re.match(r"(\d+)\s*:?\s*(.*)$", full, re.S)
             cur.closures[int(m2.group(1))] = m2.group(2)
@@ -898,7 +907,7 @@ def emit_fn(out, u, fs, rules_used):
         # tooling only (tools/dep_audit.py): VERIF_DROP_CLAUSE="<fn>#<k>" leaves out the k-th `ensures` clause of <fn>, to find
         # out which other obligations are proved from it
         drop = os.environ.get("VERIF_DROP_CLAUSE", "")
-        if drop and drop.rsplit("#", 1)[0] == fs.name:
+        if drop and drop.rsplit("#", 1)[0] == "%s::%s" % (fs.file, fs.name):
             ens = [c for c in clauses if c.kind == "ensures"]
             kk = int(drop.rsplit("#", 1)[1])
             if kk < len(ens): clauses = [c for c in clauses if c is not ens[kk]]
@@ -948,117 +957,126 @@ def emit_fn(out, u, fs, rules_used):
                 if not txt.endswith(","): txt += ","
                 lines_.append(("            " + txt, ("clause", u.name, fs.name, "loop%d.%s" % (kk, kind), c.tags, c.src_line, cid)))
         ins.append((off(body[lb]), "before", lines_))
-    for (where, txt, sline, htags) in fs.ats:
-        origin = ("hint", u.name, fs.name, where, sline, htags)
-        block = [("        " + l, origin) for l in txt.split("\n")]
-        if where == "body_start":
-            ins.append((off(body[0]) + 1, "after", block))
-        elif where == "fn_end":
-            ins.append((off(body[block_end_tok(body, 0)]), "before", block))
-        elif where == "exits":
-            # before every `return` (not inside closures) and before the tail of the function body
-            cl_ranges = []
-            for (a, b) in find_closures(body):
-                cl_ranges.append(a)
-            for kx, tx in enumerate(body):
-                if tx.kind == "ident" and tx.text == "return":
-                    ins.append((off(tx), "before", block))
-            for kx in exit_points(body, 0):
-                ins.append((off(body[kx]), "before", block))
-        elif where.startswith("loop"):
-            kk = int(where.split()[1])
-            if kk >= len(loops):
-                raise LostAnchor("fn %s: loop %d not found" % (fs.name, kk))
-            if where.split()[2] == "start":
-                ins.append((off(body[loops[kk][1]]) + 1, "after", block))
-            elif where.split()[2] == "after":
-                kc = match_close(body, loops[kk][1])
-                ins.append((off(body[kc]) + 1, "after", block))
-            else:
-                ins.append((off(body[block_end_tok(body, loops[kk][1], unit_block=True)]), "before", block))
-        elif where.startswith("arm") or where.startswith("block"):
-            m = re.match(r"(arm|block)\s+/(.*?)/(?:\s*#(\d+))?\s+(\w+)$", where, re.S)
-            kind_, rx, nth, pos_ = m.group(1), m.group(2), int(m.group(3) or 1), m.group(4)
-            ms = list(re.finditer(rx, btext))
-            if len(ms) < nth:
-                raise LostAnchor("fn %s: anchor /%s/ #%d not found" % (fs.name, rx, nth))
-            mm = ms[nth - 1]
-            if kind_ == "arm":
-                # advance to `=>`
-                karrow = None
-                depth = 0
+    def place(where, block):
+            if where == "body_start":
+                ins.append((off(body[0]) + 1, "after", block))
+            elif where == "fn_end":
+                ins.append((off(body[block_end_tok(body, 0)]), "before", block))
+            elif where == "exits":
+                # before every `return` (not inside closures) and before the tail of the function body
+                cl_ranges = []
+                for (a, b) in find_closures(body):
+                    cl_ranges.append(a)
                 for kx, tx in enumerate(body):
-                    if tx.start - base < mm.start(): continue
-                    if tx.kind == "punct":
-                        if tx.text in ("(", "[", "{"): depth += 1
-                        elif tx.text in (")", "]", "}"): depth -= 1
-                        elif tx.text == "=>" and depth <= 0:
-                            karrow = kx; break
-                if karrow is None:
-                    raise LostAnchor("fn %s: arm /%s/ has no =>" % (fs.name, rx))
-                kb_ = _next_sig(body, karrow)
-                if body[kb_].kind == "punct" and body[kb_].text == "{":
-                    if pos_ == "start":
+                    if tx.kind == "ident" and tx.text == "return":
+                        ins.append((off(tx), "before", block))
+                for kx in exit_points(body, 0):
+                    ins.append((off(body[kx]), "before", block))
+            elif where.startswith("loop"):
+                kk = int(where.split()[1])
+                if kk >= len(loops):
+                    raise LostAnchor("fn %s: loop %d not found" % (fs.name, kk))
+                if where.split()[2] == "start":
+                    ins.append((off(body[loops[kk][1]]) + 1, "after", block))
+                elif where.split()[2] == "after":
+                    kc = match_close(body, loops[kk][1])
+                    ins.append((off(body[kc]) + 1, "after", block))
+                else:
+                    ins.append((off(body[block_end_tok(body, loops[kk][1], unit_block=True)]), "before", block))
+            elif where.startswith("arm") or where.startswith("block"):
+                m = re.match(r"(arm|block)\s+/(.*?)/(?:\s*#(\d+))?\s+(\w+)$", where, re.S)
+                kind_, rx, nth, pos_ = m.group(1), m.group(2), int(m.group(3) or 1), m.group(4)
+                ms = list(re.finditer(rx, btext))
+                if len(ms) < nth:
+                    raise LostAnchor("fn %s: anchor /%s/ #%d not found" % (fs.name, rx, nth))
+                mm = ms[nth - 1]
+                if kind_ == "arm":
+                    # advance to `=>`
+                    karrow = None
+                    depth = 0
+                    for kx, tx in enumerate(body):
+                        if tx.start - base < mm.start(): continue
+                        if tx.kind == "punct":
+                            if tx.text in ("(", "[", "{"): depth += 1
+                            elif tx.text in (")", "]", "}"): depth -= 1
+                            elif tx.text == "=>" and depth <= 0:
+                                karrow = kx; break
+                    if karrow is None:
+                        raise LostAnchor("fn %s: arm /%s/ has no =>" % (fs.name, rx))
+                    kb_ = _next_sig(body, karrow)
+                    if body[kb_].kind == "punct" and body[kb_].text == "{":
+                        if pos_ == "start":
+                            ins.append((off(body[kb_]) + 1, "after", block))
+                        else:
+                            ins.append((off(body[block_end_tok(body, kb_)]), "before", block))
+                    else:
+                        # expression arm `PAT => expr,` : wrap into a block
+                        e = kb_
+                        depth = 0
+                        while e < len(body):
+                            tt = body[e]
+                            if tt.kind == "punct":
+                                if tt.text in ("(", "[", "{"): depth += 1
+                                elif tt.text in (")", "]", "}"):
+                                    if depth == 0: break
+                                    depth -= 1
+                                elif tt.text == "," and depth == 0:
+                                    break
+                            e += 1
+                        ins.append((off(body[kb_]), "before", [("{", ("glue",))] + block))
+                        ins.append((off(body[e]), "before", [("}", ("glue",))]))
+                else:
+                    kb_ = find_block_after(body, mm.end(), base)
+                    if kb_ is None:
+                        raise LostAnchor("fn %s: block after /%s/ not found" % (fs.name, rx))
+                    if pos_.startswith("else"):
+                        kc = match_close(body, kb_)
+                        ke = _next_sig(body, kc)
+                        if not (body[ke].kind == "ident" and body[ke].text == "else"):
+                            raise LostAnchor("fn %s: block /%s/ has no else" % (fs.name, rx))
+                        kb_ = _next_sig(body, ke)
+                        if not (body[kb_].kind == "punct" and body[kb_].text == "{"):
+                            raise LostAnchor("fn %s: else of /%s/ is not a block" % (fs.name, rx))
+                    if pos_.endswith("start"):
                         ins.append((off(body[kb_]) + 1, "after", block))
                     else:
                         ins.append((off(body[block_end_tok(body, kb_)]), "before", block))
+            else:
+                m = re.match(r"(before|after|stmt_after)\s+/(.*?)/(?:\s*#(\d+))?$", where, re.S)
+                mode, rx, nth = m.group(1), m.group(2), int(m.group(3) or 1)
+                ms = list(re.finditer(rx, btext))
+                if len(ms) < nth:
+                    raise LostAnchor("fn %s: anchor /%s/ #%d not found" % (fs.name, rx, nth))
+                mm = ms[nth - 1]
+                if mode == "before":
+                    ins.append((mm.start(), "before", block))
+                elif mode == "after":
+                    ins.append((mm.end(), "after", block))
                 else:
-                    # expression arm `PAT => expr,` : wrap into a block
-                    e = kb_
+                    # after the end of the statement containing the match: next ';' at same nesting
+                    j = mm.end()
+                    if btext[mm.start():mm.end()].rstrip().endswith(";"):
+                        j = mm.end() - 1
                     depth = 0
-                    while e < len(body):
-                        tt = body[e]
-                        if tt.kind == "punct":
-                            if tt.text in ("(", "[", "{"): depth += 1
-                            elif tt.text in (")", "]", "}"):
-                                if depth == 0: break
-                                depth -= 1
-                            elif tt.text == "," and depth == 0:
-                                break
-                        e += 1
-                    ins.append((off(body[kb_]), "before", [("{", ("glue",))] + block))
-                    ins.append((off(body[e]), "before", [("}", ("glue",))]))
-            else:
-                kb_ = find_block_after(body, mm.end(), base)
-                if kb_ is None:
-                    raise LostAnchor("fn %s: block after /%s/ not found" % (fs.name, rx))
-                if pos_.startswith("else"):
-                    kc = match_close(body, kb_)
-                    ke = _next_sig(body, kc)
-                    if not (body[ke].kind == "ident" and body[ke].text == "else"):
-                        raise LostAnchor("fn %s: block /%s/ has no else" % (fs.name, rx))
-                    kb_ = _next_sig(body, ke)
-                    if not (body[kb_].kind == "punct" and body[kb_].text == "{"):
-                        raise LostAnchor("fn %s: else of /%s/ is not a block" % (fs.name, rx))
-                if pos_.endswith("start"):
-                    ins.append((off(body[kb_]) + 1, "after", block))
-                else:
-                    ins.append((off(body[block_end_tok(body, kb_)]), "before", block))
-        else:
-            m = re.match(r"(before|after|stmt_after)\s+/(.*?)/(?:\s*#(\d+))?$", where, re.S)
-            mode, rx, nth = m.group(1), m.group(2), int(m.group(3) or 1)
-            ms = list(re.finditer(rx, btext))
-            if len(ms) < nth:
-                raise LostAnchor("fn %s: anchor /%s/ #%d not found" % (fs.name, rx, nth))
-            mm = ms[nth - 1]
-            if mode == "before":
-                ins.append((mm.start(), "before", block))
-            elif mode == "after":
-                ins.append((mm.end(), "after", block))
-            else:
-                # after the end of the statement containing the match: next ';' at same nesting
-                j = mm.end()
-                if btext[mm.start():mm.end()].rstrip().endswith(";"):
-                    j = mm.end() - 1
-                depth = 0
-                while j < len(btext):
-                    ch = btext[j]
-                    if ch in "([{": depth += 1
-                    elif ch in ")]}": depth -= 1
-                    elif ch == ";" and depth <= 0:
-                        break
-                    j += 1
-                ins.append((j + 1, "after", block))
+                    while j < len(btext):
+                        ch = btext[j]
+                        if ch in "([{": depth += 1
+                        elif ch in ")]}": depth -= 1
+                        elif ch == ";" and depth <= 0:
+                            break
+                        j += 1
+                    ins.append((j + 1, "after", block))
+    for (where_all, txt, sline, htags) in fs.ats:
+        origin = ("hint", u.name, fs.name, where_all, sline, htags)
+        block = [("        " + l, origin) for l in txt.split("\n")]
+        err = None
+        for w in where_all.split(" ||| "):
+            n0 = len(ins)
+            try:
+                place(w.strip(), block); err = None; break
+            except LostAnchor as e:
+                del ins[n0:]; err = e
+        if err is not None: raise err
     # closures (R5)
     if fs.closures:
         cl = find_closures(body)
@@ -1078,6 +1096,16 @@ def emit_fn(out, u, fs, rules_used):
                     raise LostAnchor("fn %s: closure %d has a pattern parameter, header must name one variable" % (fs.name, kk))
                 let_stmt = " let %s = %s;" % (orig_params, var.group(1))
                 rules_used.add("R13")
+            else:
+                # the contract store names the parameters its own way; the names used by the source are bound to them
+                # (so that renaming a closure parameter in /repo does not matter)
+                hp = re.match(r"\|(.*?)\|", hdr, re.S)
+                hnames = [x.split(":")[0].strip() for x in hp.group(1).split(",")] if hp else []
+                onames = [re.sub(r"^mut\s+", "", x.split(":")[0].strip()) for x in orig_params.split(",")] if orig_params else []
+                if len(hnames) == len(onames):
+                    for on, hn in zip(onames, hnames):
+                        if on != hn and re.fullmatch(r"[A-Za-z][A-Za-z0-9_]*|_[A-Za-z0-9_]+", on):
+                            let_stmt += " let %s = %s;" % (on, hn)
             if body[j].kind == "punct" and body[j].text == "{":
                 ins.append((off(body[a]), "replace", (off(body[j]) + 1, hdr + " {" + let_stmt)))
             else:
